@@ -86,7 +86,14 @@ def obligations(tier, seed):
     obs.append(Ob(id='C16.static.times-one', prop='C16', group='C16.static', prelude='', wrappers=[], inputs=[], kind='S', body=RU1,
                   contract='static facts: c * mag<1>(), mag<1>() * c, c / (mag<3>() / mag<3>()), c * ONE keep the unit of c = make_constant(m/s * mag<299792458>()) and its value in m/s; '
                            'c * mag<2>() / mag<2>() has the same value', functions_under_contract=('au::Constant operators with Magnitude<> (compile-time)',)))
-    sel = probes if tier == 'thorough' else probes[:-12][::2] + probes[-12:]
+    # every 64-bit integer TYPE, not only the <cstdint> aliases (unsigned long long and unsigned long are distinct types of the same width)
+    for (nm, T, lit_, over) in (('ull', 'unsigned long long', '18446744073709551615ULL', None), ('ull_2_63', 'unsigned long long', '9223372036854775808ULL', None), ('ul', 'unsigned long', '18446744073709551615ULL', None),
+                                ('ll', 'long long', '9223372036854775807ULL', '9223372036854775808ULL'), ('l', 'long', '9223372036854775807ULL', '9223372036854775808ULL')):
+        C = 'au::make_constant(au::Meters{} * au::mag<%s>())' % lit_
+        txt = 'VF_STATIC_FACT(%s.can_store_value_in<%s>(au::meters));\nVF_STATIC_FACT(%s.in<%s>(au::meters) == static_cast<%s>(%s));' % (C, T, C, T, T, lit_)
+        if over: txt += '\nVF_STATIC_FACT(!au::make_constant(au::Meters{} * au::mag<%s>()).can_store_value_in<%s>(au::meters));' % (over, T)
+        probes.append(('wide_type_%s' % nm, txt))
+    sel = probes if tier == 'thorough' else probes[:-17][::2] + probes[-17:]
     for (nm, text) in sel:
         obs.append(Ob(id='C16.static.%s' % nm, prop='C16', group='C16.static', prelude='', wrappers=[], inputs=[], body=HDR + text + '\nint main() {}\n', kind='S',
                       contract='static fact: ' + text.replace('\n', ' '), functions_under_contract=('au::Constant::can_store_value_in / as / in (compile-time)',)))
